@@ -143,7 +143,15 @@ class MCA:
             d = self.rng.uniform(-2.0, 2.0, size=v.shape)
             out = v * (1.0 + u * d)
             if extra_abs is not None:
-                out = out + np.asarray(extra_abs) * self.rng.uniform(-1.0, 1.0, size=v.shape)
+                ea = np.asarray(extra_abs)
+                if v.dtype.kind == "c":
+                    # an absolute rounding bound applies to each part separately (a part that
+                    # cancels exactly in one evaluation order need not in another: FMA)
+                    mag = np.maximum(np.abs(ea.real), np.abs(ea.imag))
+                    out = out + mag * (self.rng.uniform(-1.0, 1.0, size=v.shape)
+                                       + 1j * self.rng.uniform(-1.0, 1.0, size=v.shape))
+                else:
+                    out = out + ea * self.rng.uniform(-1.0, 1.0, size=v.shape)
             out = np.where(np.isfinite(v), out, v)
         return out.astype(v.dtype)
 
